@@ -433,10 +433,14 @@ class Harness:
 
 
 class RandomPolicy:
-    def __init__(self, seed, burst_max=4, env_bias=0.5):
+    """Seeded schedule: how many things happen between two controller passes (burst), how eager the environment is
+    (task exits / kills) and how eager the controller callbacks are relative to the other rx hops (ctrl_weight)."""
+
+    def __init__(self, seed, burst_max=4, env_bias=0.5, ctrl_weight=1.0):
         self.rnd = random.Random(seed)
         self.burst_max = burst_max
         self.env_bias = env_bias
+        self.ctrl_weight = ctrl_weight
 
     def burst(self, h):
         return self.rnd.randint(0, self.burst_max)
@@ -446,7 +450,10 @@ class RandomPolicy:
         items = [c for c in choices if c[0] == "item"]
         if envs and (not items or self.rnd.random() < self.env_bias):
             return self.rnd.choice(envs)
-        return self.rnd.choice(items)
+        if self.ctrl_weight == 1.0:
+            return self.rnd.choice(items)
+        ws = [self.ctrl_weight if c[1].lane == "pool:Controller" else 1.0 for c in items]
+        return self.rnd.choices(items, weights=ws, k=1)[0]
 
 
 def run_case(shape_name, oa, scratch, policy, log_trace=True):
